@@ -1,9 +1,12 @@
 """C11 Intrusive list / signal membership equals the set of live connections (DESIGN.md §6 C11).
 
 Ring invariant R: x.next_->prev_ == x and x.prev_->next_ == x for every hook including list heads.
-Decided: every member of intrusive::base and intrusive::list preserves R (ring-surgery
-discipline): link writes are classified into BRIDGE / COPYLINKS / ADOPT / SELFLOOP / INSERT events
-and each path must order them correctly; anything unclassified is reported. Signal: operator()
+Decided (RING-SHAPE): every member of intrusive::base and intrusive::list, interpreted over one
+representative heap per SHAPE CLASS of the rings involved (engine/shape.py), preserves R and produces
+exactly the ring membership the ring-surgery specification prescribes (takeover, unlink, splice).
+An earlier version classified the link WRITES by pattern (bridge / copy-links / adopt / self-loop) and
+required an order; it was exact on the code as written but raised false alarms on the corrected
+takeover (`_other.prev_ == &_other ? this : _other.prev_`), so it was replaced. Signal: operator()
 visits connections() in list order folding from the initial value; the unregister destructor is
 unlink, then the callback exactly once, never throwing past terminate.
 Not decided: the history-level statement beyond R.
@@ -11,6 +14,7 @@ Not decided: the history-level statement beyond R.
 from engine import facts as F
 from engine import load
 from engine import lrules as L
+from engine import shape as SH
 from engine import terms as T
 
 LEVEL = "other"
@@ -19,244 +23,129 @@ LIST = "fcppt::intrusive::list"
 THIS = ("this",)
 
 
-flatten_paths = L.flatten_paths
+def shape_cases(db):
+    """[(key, description, function, builder)] -- builder() -> (heap, this value, args, live nodes, expected rings)"""
+    def pick(qn, pred):
+        seen = {}
+        for fn in db.fns(qn):
+            if pred(fn) and fn.get("body") is not None:
+                seen.setdefault(F.primary_site(fn), fn)
+        return list(seen.values())[:1]
+    u_ty = lambda fn, i: fn["_unit"].ty(fn["params"][i]["t"]) or ""
+    cases = []
+
+    def heap_with(rings, fresh=(), lists=()):
+        h = SH.Heap()
+        for r in rings:
+            h.ring(r)
+        for f_ in fresh:
+            h.fresh(f_)
+        for (l, hd) in lists:
+            h.lists[l] = hd
+        h.far = set(n for r in rings for n in r if n.endswith("F"))
+        return h
+
+    def takeover_spec(rings, t, o):
+        """t takes o's place (after t left its own ring); o ends as a ring of one"""
+        if t == o:
+            return rings
+        r2 = SH.spec_remove(rings, t)
+        alone = any(r == [o] for r in r2)
+        if alone:
+            return [r for r in r2 if r != [o]] + [[t], [o]]
+        return SH.spec_replace(r2, o, t) + [[o]]
+
+    # unary: destructor, unlink
+    for fn in pick(BASE + "::~base", lambda f: True):
+        for r in SH.ring_shapes("T", "a"):
+            cases.append(("~base|ring=%d" % len(r), "destroying a hook closes its ring around it", fn,
+                          (lambda r=r: (heap_with([r]), ("n", "T"), [], set(r) - {"T"}, SH.spec_remove([r], "T")))))
+    for fn in pick(BASE + "::unlink", lambda f: True):
+        for r in SH.ring_shapes("T", "a"):
+            cases.append(("unlink|ring=%d" % len(r), "unlink closes the ring and leaves the hook as a ring of one", fn,
+                          (lambda r=r: (heap_with([r]), ("n", "T"), [], set(r), SH.spec_remove([r], "T") + [["T"]]))))
+    # insertion constructor
+    for fn in pick(BASE + "::base", lambda f: len(f.get("params", [])) == 1 and "intrusive::list" in u_ty(f, 0)):
+        for r in SH.ring_shapes("H", "h"):
+            cases.append(("base(list&)|list-ring=%d" % len(r), "a new hook is spliced in before the head (at the end of the list)", fn,
+                          (lambda r=r: (heap_with([r], fresh=["T"], lists=[("L", "H")]), ("n", "T"), [("l", "L")], set(r) | {"T"}, [r + ["T"]]))))
+    # default constructor
+    for fn in pick(BASE + "::base", lambda f: not f.get("params")):
+        cases.append(("base()", "a default-constructed hook is a ring of one", fn,
+                      (lambda: (heap_with([], fresh=["T"]), ("n", "T"), [], {"T"}, [["T"]]))))
+    # move constructor
+    for fn in pick(BASE + "::base", lambda f: f.get("ctor_kind") == "move"):
+        for r in SH.ring_shapes("O", "o"):
+            cases.append(("base(base&&)|source-ring=%d" % len(r), "the new hook takes the source's place; a source that is a ring of one (unlinked, moved-from, or its list died) gives a ring of one", fn,
+                          (lambda r=r: (heap_with([r], fresh=["N"]), ("n", "N"), [("n", "O")], set(r) | {"N"}, takeover_spec([r] + [["N"]], "N", "O")))))
+    # move assignment
+    for fn in pick(BASE + "::operator=", lambda f: len(f.get("params", [])) == 1):
+        for r in SH.ring_shapes("T", "a"):
+            cases.append(("base::operator=|self|ring=%d" % len(r), "self-assignment changes nothing", fn,
+                          (lambda r=r: (heap_with([r]), ("n", "T"), [("n", "T")], set(r), [r]))))
+        for rt in SH.ring_shapes("T", "a"):
+            for ro in SH.ring_shapes("O", "o"):
+                cases.append(("base::operator=|target-ring=%d,source-ring=%d" % (len(rt), len(ro)),
+                              "the target leaves its ring (which closes) and takes the source's place; the source ends as a ring of one", fn,
+                              (lambda rt=rt, ro=ro: (heap_with([rt, ro]), ("n", "T"), [("n", "O")], set(rt) | set(ro), takeover_spec([rt, ro], "T", "O")))))
+        for r in (["T", "O"], ["T", "O", "x1"], ["O", "T", "x1"], ["T", "O", "x1", "xF", "x2"], ["O", "T", "x1", "xF", "x2"],
+                  ["T", "x1", "O", "x2"], ["T", "a1", "aF", "a2", "O", "b1", "bF", "b2"]):
+            cases.append(("base::operator=|same-ring=%s" % "-".join(r), "target and source in the same ring", fn,
+                          (lambda r=r: (heap_with([r]), ("n", "T"), [("n", "O")], set(r), takeover_spec([r], "T", "O")))))
+    # list move construction / assignment (the heads are hooks)
+    for fn in pick(LIST + "::list", lambda f: f.get("ctor_kind") == "move"):
+        for r in SH.ring_shapes("H1", "e"):
+            cases.append(("list(list&&)|source-ring=%d" % len(r), "the new list takes over the members; an empty source gives an empty list", fn,
+                          (lambda r=r: (heap_with([r], fresh=["H2"], lists=[("L1", "H1"), ("L2", "H2")]), ("l", "L2"), [("l", "L1")], set(r) | {"H2"},
+                                        takeover_spec([r] + [["H2"]], "H2", "H1")))))
+    for fn in pick(LIST + "::operator=", lambda f: len(f.get("params", [])) == 1):
+        for r in SH.ring_shapes("H1", "e"):
+            cases.append(("list::operator=|self|ring=%d" % len(r), "self-assignment changes nothing", fn,
+                          (lambda r=r: (heap_with([r], lists=[("L1", "H1")]), ("l", "L1"), [("l", "L1")], set(r), [r]))))
+        for rt in SH.ring_shapes("H2", "t"):
+            for ro in SH.ring_shapes("H1", "e"):
+                cases.append(("list::operator=|target-ring=%d,source-ring=%d" % (len(rt), len(ro)),
+                              "the target's old members stay a closed ring among themselves, the target takes over the source's members, the source is empty", fn,
+                              (lambda rt=rt, ro=ro: (heap_with([rt, ro], lists=[("L1", "H1"), ("L2", "H2")]), ("l", "L2"), [("l", "L1")], set(rt) | set(ro),
+                                                     takeover_spec([rt, ro], "H2", "H1")))))
+    return cases
 
 
-def link_events(u, fn, stmts):
-    """classify the link writes of a statement sequence (plus ctor initialisers) into events"""
-    raw = []   # (object X whose field is written, field, value term, loc)
-    for i in fn.get("inits", []) if stmts is None else []:
-        pass
-    seq = []
-    for s in stmts:
-        for n in F.walk(s):
-            k = n.get("k")
-            if k == "assign":
-                f = L.field_of(u, n.get("l"))
-                if f and f[1] in ("next_", "prev_"):
-                    seq.append(("W", f[0], f[1], T.norm(u, n.get("r")), u.loc(n["loc"])))
-            elif k == "call":
-                d = T.callee_decl(u, n)
-                if d is None:
-                    continue
-                qn = F.strip_targs(d["qn"])
-                if qn == BASE + "::unlink" and n.get("recv") is not None:
-                    seq.append(("UNLINK", T.norm(u, n["recv"]), u.loc(n["loc"])))
-                elif qn == BASE + "::operator=" and n.get("recv") is not None:
-                    seq.append(("MOVEHOOK", T.norm(u, n["recv"]), T.norm(u, (n.get("args") or [None])[0]), u.loc(n["loc"])))
-                elif qn in ("std::swap",) and any(L.field_of(u, a) and L.field_of(u, a)[1] in ("next_", "prev_") for a in n.get("args", [])):
-                    seq.append(("UNKNOWN", "std::swap on link fields", u.loc(n["loc"])))
-            elif k == "construct" and n.get("cls") == BASE and n.get("ctor") == "move":
-                seq.append(("MOVEHOOK", None, T.norm(u, (n.get("args") or [None])[0]), u.loc(n["loc"])))
-    return seq
-
-
-def addr_of(term):
-    return ("u", "&", term)
-
-
-def self_ref(X):
-    return THIS if X == THIS else addr_of(X)
-
-
-def check_insert_ctor(seq):
-    """base(list&): splice this before the head H: this.prev_ = H.prev_; this.next_ = &H;
-    H.prev_->next_ = this; H.prev_ = this (in that order)."""
-    ws = [e for e in seq if e[0] == "W"]
-    H = None
-    for e in ws:
-        if e[1] == THIS and e[2] == "next_" and isinstance(e[3], tuple) and e[3][0] == "u" and e[3][1] == "&":
-            H = e[3][2]
-    if H is None:
-        return None
-    probs = []
-    want = [(THIS, "prev_", ("m", H, "prev_")), (THIS, "next_", addr_of(H)),
-            (("m", H, "prev_"), "next_", THIS), (H, "prev_", THIS)]
-    got = [(e[1], e[2], e[3]) for e in ws]
-    for w in want:
-        if w not in got:
-            probs.append(("insertion constructor misses the link write %s.%s = %s" % (T.show(w[0]), w[1], T.show(w[2])), ws[0][4] if ws else ""))
-    extra = [g for g in got if g not in want]
-    for g in extra:
-        probs.append(("insertion constructor has an unexpected link write %s.%s = %s" % (T.show(g[0]), g[1], T.show(g[2])), ""))
-    if not probs and got.index(want[2]) > got.index(want[3]):
-        probs.append(("insertion constructor overwrites head.prev_ before linking the old last element to this", ""))
-    return probs
-
-
-def check_sequence(seq, is_ctor, is_dtor, owner):
-    """Returns list of (problem text, loc). owner: term of the object the function belongs to."""
-    if is_ctor:
-        r = check_insert_ctor(seq)
-        if r is not None:
-            return r
-    problems = []
-    bridged = set()     # objects whose neighbours were bridged around them
-    copied = {}         # T -> X : T took X's links
-    adopted = set()
-    looped = set()
-    wr = {}
-    for ev in seq:
-        if ev[0] == "UNKNOWN":
-            problems.append((ev[1], ev[2]))
+def rule_shape(rep, db):
+    cases = shape_cases(db)
+    for (key, text, fn, build) in cases:
+        heap, this, args, live, want = build()
+        site = F.primary_site(fn)
+        try:
+            SH.Interp(db, heap).run(fn, this, args)
+        except SH.ShapeUnsupported as e:
+            rep.broken("C11 RING-SHAPE %s: %s" % (key, e))
             continue
-        if ev[0] == "UNLINK":
-            bridged.add(ev[1])
-            looped.add(ev[1])
-            continue
-        if ev[0] == "MOVEHOOK":
-            continue
-        _, X, fld, val, loc = ev
-        other = "prev_" if fld == "next_" else "next_"
-        # bridge: X.next_->prev_ = X.prev_   i.e. object written is deref(X.next_), field prev_
-        if isinstance(X, tuple) and X[0] == "m" and X[2] in ("next_", "prev_") and X[2] != fld:
-            Y = X[1]
-            if val == ("m", Y, fld):
-                wr.setdefault(("bridge", Y), set()).add(fld)
-                if wr[("bridge", Y)] == {"next_", "prev_"}:
-                    bridged.add(Y)
-                continue
-            if val == self_ref(Y):
-                # Y.prev_->next_ = &Y : neighbours adopt Y
-                wr.setdefault(("adopt", Y), set()).add(fld)
-                if wr[("adopt", Y)] == {"next_", "prev_"}:
-                    adopted.add(Y)
-                    if Y not in copied and not is_ctor:
-                        problems.append(("neighbours are pointed at %s although it did not take over anybody's links" % T.show(Y), loc))
-                continue
-            if is_ctor and val == THIS:
-                # insertion constructor: head.prev_->next_ = this
-                wr.setdefault(("insert",), set()).add(fld)
-                continue
-            problems.append(("unclassified write to a neighbour's %s (value %s)" % (fld, T.show(val)), loc))
-            continue
-        # own-link writes of X
-        if val == self_ref(X):
-            wr.setdefault(("loop", X), set()).add(fld)
-            if wr[("loop", X)] == {"next_", "prev_"}:
-                looped.add(X)
-            taken = any(src == X and T_ in adopted for T_, src in copied.items())
-            if not (X in bridged or taken or is_ctor):
-                problems.append(("%s is reset to a self-loop without bridging its neighbours first: the old members keep "
-                                 "pointing at it" % T.show(X), loc))
-            continue
-        if isinstance(val, tuple) and val[0] == "m" and val[2] == fld and val[1] != X:
-            # X.prev_ = Y.prev_ : X takes over Y's links
-            Y = val[1]
-            wr.setdefault(("copy", X, Y), set()).add(fld)
-            if wr[("copy", X, Y)] == {"next_", "prev_"}:
-                copied[X] = Y
-            if not is_ctor and X not in bridged:
-                problems.append(("%s overwrites its own %s without having bridged its old neighbours" % (T.show(X), fld), loc))
-            continue
-        if is_ctor and val == THIS:
-            wr.setdefault(("insert",), set()).add(fld)
-            continue
-        problems.append(("unclassified write to %s.%s (value %s)" % (T.show(X), fld, T.show(val)), loc))
-    for T_, X in copied.items():
-        if T_ not in adopted:
-            problems.append(("%s took over the links of %s but its new neighbours are not pointed back at it" % (T.show(T_), T.show(X)), ""))
-        if X not in looped:
-            problems.append(("%s was moved from but is not reset to a self-loop" % T.show(X), ""))
-    if is_dtor and owner not in bridged:
-        problems.append(("destructor does not bridge the neighbours of the dying hook", ""))
-    return problems
+        got = heap.rings_of(live)
+        exp = SH.canon_set(want)
+        if isinstance(got, str):
+            rep.fail("RING-SHAPE", key, site, F.describe(fn)[:160], why="%s: %s" % (text, got),
+                     detail={"links_after": {n: heap.nodes[n] for n in sorted(heap.nodes)}, "expected_rings": sorted(exp)})
+        elif got != exp:
+            rep.fail("RING-SHAPE", key, site, F.describe(fn)[:160],
+                     why="%s: rings afterwards are %s, specification %s" % (text, sorted(got), sorted(exp)),
+                     detail={"links_after": {n: heap.nodes[n] for n in sorted(heap.nodes)}})
+        else:
+            rep.ok("RING-SHAPE", key, site, F.describe(fn)[:160], how="shape-class")
 
 
 def main(rep, tier, only):
     db = load.load(tier, lib=False, drivers=["drv_containers"])
     rep.extra.update(db.stats())
-    rep.rule("RING", "every path of every member of intrusive::base / intrusive::list orders its link writes as "
-                     "bridge-before-overwrite, takeover = copy links + adopt neighbours + reset source; every link write "
-                     "is classified", floor=4)
-    rep.rule("RING-CTOR", "constructors establish the ring: default = self-loop, insertion = symmetric splice before the head, "
-                          "move = takeover of the source's links + source reset", floor=3)
-    rep.rule("LIST-MOVE", "list move construction / assignment move the head hook only when the source is non-empty, and an "
-                          "empty source leaves this list's former members bridged (unlink), not dangling", floor=2)
+    rep.rule("RING-SHAPE", "every ring operation of intrusive::base / intrusive::list, interpreted over one representative heap per shape "
+                           "class of the rings involved (ring of one / two / distinct neighbours; different rings, same ring adjacent or "
+                           "not), leaves every live hook in a consistent ring with exactly the membership the ring-surgery specification "
+                           "prescribes", floor=40)
+    if only in (None, "RING-SHAPE"):
+        rule_shape(rep, db)
     rep.rule("SIG-ORDER", "signal::operator() visits connections() in list order, folding from the initial value / calling every item", floor=2)
     rep.rule("SIG-UNREG", "unregister connection destructor: unlink first, then the unregister callback exactly once, "
                           "exceptions end in std::terminate", floor=1)
-    nb = 0
-    for rec in (BASE, LIST):
-        for fn in L.method_fns(db, rec):
-            u = fn["_unit"]
-            name = F.fn_name(fn).split("::")[-1]
-            is_ctor = fn.get("kind") == "ctor"
-            is_dtor = fn.get("kind") == "dtor"
-            if fn.get("defaulted") and not (fn.get("body") or {}).get("ch"):
-                continue
-            key = "%s@%s" % (F.fn_name(fn), ",".join(u.ty(p["t"]) for p in fn.get("params", [])))
-            body = fn.get("body") or {}
-            init_stmts = []
-            if is_ctor:
-                # mem-initialisers prev_{X}, next_{Y} count as writes to this
-                for i in fn.get("inits", []):
-                    if i.get("field") in ("next_", "prev_"):
-                        init_stmts.append({"k": "assign", "loc": i["init"].get("loc"), "l": {"k": "member", "field": True, "name": i["field"], "base": {"k": "this"}},
-                                           "r": i["init"]})
-            paths = flatten_paths(body.get("ch", []))
-            allprob = []
-            nev = 0
-            for (items, conds) in paths:
-                seq = link_events(u, fn, init_stmts + items)
-                nev += len(seq)
-                allprob += check_sequence(seq, is_ctor, is_dtor, THIS)
-            rid = "RING-CTOR" if is_ctor else "RING"
-            if rec == LIST and not nev and not is_dtor:
-                continue
-            nb += 1
-            if allprob:
-                seen = set()
-                for (p, loc) in allprob:
-                    if (p, loc) in seen:
-                        continue
-                    seen.add((p, loc))
-                    rep.fail(rid, key + "|" + p.split(":")[0][:60], loc or F.primary_site(fn), F.describe(fn), why=p)
-            else:
-                rep.ok(rid, key, F.primary_site(fn), F.describe(fn), how="ordered", detail={"paths": len(paths), "link_events": nev})
-    # ---- LIST-MOVE
-    for fn in L.method_fns(db, LIST):
-        u = fn["_unit"]
-        is_ctor = fn.get("kind") == "ctor"
-        if not ((is_ctor and fn.get("ctor_kind") == "move") or fn.get("assign_kind") == "move"):
-            continue
-        key = F.fn_name(fn) + ("(list&&)" if is_ctor else "")
-        paths = flatten_paths((fn.get("body") or {}).get("ch", []))
-        probs = []
-        moved_somewhere = False
-        for (items, conds) in paths:
-            seq = link_events(u, fn, items)
-            moves = [e for e in seq if e[0] == "MOVEHOOK"]
-            # facts on this path: _other.empty() polarity
-            empty_pol = None
-            for (c, pol) in conds:
-                t = T.norm(u, c)
-                neg = False
-                while isinstance(t, tuple) and t[0] == "u" and t[1] == "!":
-                    t = t[2]
-                    neg = not neg
-                if isinstance(t, tuple) and t[0] == "c" and str(t[1]).endswith("::empty"):
-                    empty_pol = pol != neg
-            if moves:
-                moved_somewhere = True
-                if empty_pol is not False:
-                    probs.append(("the head hook is moved from a possibly empty source list (moving a self-looped hook corrupts the ring)", moves[0][-1]))
-            else:
-                ret_self = any(it.get("k") == "return" for it in items)
-                selfcmp = any(isinstance(T.norm(u, c), tuple) and "this" in T.show(T.norm(u, c)) and pol for (c, pol) in conds)
-                if empty_pol is True and not is_ctor and not selfcmp:
-                    # empty source: former members of this list must be bridged
-                    if not any(e[0] == "UNLINK" and e[1] == ("m", THIS, "head_") for e in seq):
-                        ws = [e for e in seq if e[0] == "W"]
-                        probs.append(("move assignment from an empty list does not unlink this list's head: the former members keep "
-                                      "pointing at the head and re-enter the list later", ws[0][4] if ws else F.primary_site(fn)))
-        if not moved_somewhere:
-            probs.append(("the head hook is never moved: membership is not transferred", F.primary_site(fn)))
-        if probs:
-            for (p, loc) in probs:
-                rep.fail("LIST-MOVE", key + "|" + p[:50], loc, F.describe(fn), why=p)
-        else:
-            rep.ok("LIST-MOVE", key, F.primary_site(fn), F.describe(fn), how="guarded-hook-move")
     # ---- signal
     for fn in db.functions:
         nm = F.fn_name(fn)
